@@ -644,7 +644,7 @@ func clipStrs(s []string) []string {
 func init() {
 	register(&Prop{
 		ID: "C15", Level: "exploration", Variant: "I", Design: "DESIGN.md §5 C15",
-		Rule:      "Each run stores a valid ar archive (C13 generator) or .deb (stored/gzip members) on the simulated disk and damages the stored bytes with one fault: a header column (timestamp, uid, gid, size) overwritten with a negative, -60, -61, huge, blank, signed or non-numeric value; one or both header magic bytes wrong; truncation inside the global magic, a header, the data or on the pad byte; a member duplicated, all members reordered, or an extra member under a colliding control.*/data.*/debian-binary name; 1..4 byte flips biased into headers; or raw bytes after a valid global magic. The ar iterator runs twice and deb.Load three times, each under a tape-chosen disk profile and member order; steps are counted at disk reads and instrumented loop heads.",
+		Rule:      "Each run stores a valid ar archive (C13 generator) or .deb (stored/gzip members) on the simulated disk and damages the stored bytes with one fault: a header column (timestamp, uid, gid, size) overwritten with a negative, -60, -61, huge, blank, signed or non-numeric value; one or both header magic bytes wrong; truncation inside the global magic, a header, the data or on the pad byte; a member duplicated, all members reordered, or an extra member under a colliding control.*/data.*/debian-binary name; 1..4 byte flips biased into headers; or raw bytes after a valid global magic. The ar iterator runs twice and deb.Load three times, each under a tape-chosen disk profile and member order; steps are counted at disk reads and instrumented loop heads. A sixth of the .deb runs also open the damaged file by name with LoadFile 3 x N times under a simulated descriptor table of N = 2..4 entries (EMFILE beyond it, only Close frees an entry): every outcome must fall in the same class.",
 		Run:       runC15,
 		QuickRuns: 300000, QuickSecs: 40, ThoroughRuns: 5_000_000, ThoroughSecs: 900,
 		Components: map[string]interface{}{
